@@ -316,7 +316,7 @@ func VerifyHashed(pubx, puby, e, r, s []byte) (bool, error) {
 
 	// done sanity check
 	var tBytes []byte
-	tBytes = t.Bytes()
+	tBytes = ensure32Bytes(&t) // the scalar multiplication consumes a fixed 256-bit big endian string
 
 	result, err = internal.ScalarMixedMult_Unsafe(s, pub, tBytes)
 	if err != nil {
